@@ -348,6 +348,9 @@ def mat_attr(interp, m, name, default=None):
 def arr_reshape(interp, a, shape):
     """a.reshape((-1, 1)) / (1, -1) / (n, 1) on a 1-D array."""
     shape = tuple(shape.items) if isinstance(shape, SList) else tuple(shape)
+    if len(shape) == 0:
+        # x[i:i+1].reshape(()): a zero-dimensional view of one element (acts like a scalar, shares the buffer)
+        return a
     if len(shape) == 2:
         r, c = shape
         if c == 1 and (r == -1 or True):
